@@ -72,6 +72,15 @@ def obligations(tier):
                                   {'variant': variant, 'c1': c1, 'c2': c2, 'v1': v1}, timeout=300,
                                   path_timeout=60, twin=(tier == 'thorough' or c1 == 0), functions=FUNCS,
                                   bounds='serial of the first message (u32) and both flags symbolic; cuts concrete'))
+    # the next read arrives while a message handler of the same connection is still running (in-process / loop-back
+    # transports deliver synchronously): still the same stream, cut into the same reads
+    total3 = sum(_msg_lengths(3))
+    for nested in range(3):
+        for c1 in ([0] + _cut_positions(3) if tier == 'quick' else range(total3 + 1)):
+            obs.append(Ob('reent:after%d:cut%d' % (nested, c1), 'reent', {'nmsg': 3, 'nested': nested, 'c1': c1}, timeout=300,
+                          path_timeout=60, twin=(c1 % 16 == 0), functions=FUNCS, weight=0.3,
+                          bounds='3 messages, first cut fixed, second cut symbolic (every byte position); the reads after '
+                                 'the first are delivered from inside the handler of delivered message number %d' % nested))
     for variant in ('client', 'server'):
         obs.append(Ob('hsbig:%s' % variant, 'hsbig', {'variant': variant}, timeout=600, path_timeout=120, twin=True,
                       functions=FUNCS, bounds='first message of 6 sizes around the 16 KiB line limit x 5 ways of cutting the stream (symbolic selector)'))
@@ -192,7 +201,7 @@ def _wit_stream(k, variant):
 
 def build(family, p):
     from txdbus import protocol
-    if family in ('bytes', 'hs', 'hsbig'):
+    if family in ('bytes', 'hs', 'hsbig', 'reent'):
         return _build_bytes(family, p)
     Rec = _mk_proto(protocol)
     k, ends = p['k'], p['ends']
@@ -410,6 +419,49 @@ def _build_bytes(family, p):
         params = [('s1', int), ('v1', int), ('s2', int), ('y2', int), ('s3', int), ('c2', int)]
         wit = [(1, 0, 2, 0, 3, 0), (2 ** 32 - 1, 2 ** 32 - 1, 0x0d0a0d0a, 13, 7, len(cuts)), (0x0a0d, 10, 5, 10, 6, 1)]
         return Spec(h, params, witnesses=wit)
+
+    if family == 'reent':
+        from ..engine import decode_choice, encode_choice, notrace
+        nmsg, nested = p['nmsg'], p['nested']
+        raws0, exp0 = _real_messages(nmsg, (11, 5, 12, 6, 13), message, ref_msg)
+        T = sum(len(r) for r in raws0)
+        sizes = [T + 1]
+        c1 = p['c1']
+
+        def h(code):
+            c = decode_choice(code, sizes)
+            with notrace():
+                run(sorted([c1] + c))
+            reached()
+
+        def run(cuts):
+            raws, exp = _real_messages(nmsg, (11, 5, 12, 6, 13), message, ref_msg)
+            stream = b''.join(raws)
+            reads = []
+            last = 0
+            for cpos in cuts + [len(stream)]:
+                if cpos > last:
+                    reads.append(stream[last:cpos])
+                    last = cpos
+            pending = reads[1:]
+
+            class Re(Disp):
+                def _got(self, m):
+                    self.msgs.append(m)
+                    if len(self.msgs) == nested + 1:
+                        while pending:
+                            self.dataReceived(pending.pop(0))
+                methodCallReceived = methodReturnReceived = errorReceived = signalReceived = _got
+            pr = Re()
+            pr._authenticated = True
+            pr.dataReceived(reads[0])
+            while pending:
+                pr.dataReceived(pending.pop(0))
+            check_msgs(pr, exp)
+        h.__name__ = 'reent'
+        l0, l1 = len(raws0[0]), len(raws0[1])
+        wit = [(0,), (T,), (l0 + 3,), (l0 + l1 + 1,), (l0,)]
+        return Spec(h, [('code', int)], witnesses=wit)
 
     variant = p['variant']
     if family == 'hsbig':
